@@ -6,7 +6,7 @@ from .ordq import calls, calls_resolved, dominates, edom, result_edges, edge_for
 from .proto import JQC
 from .rule import ok, bad, undecided
 from .rules_lw import FieldUse
-from .rules_locks import cg, bounded_join
+from .rules_locks import cg, bounded_join, join_unknown
 from .locks import lock_sites
 from .callgraph import BLOCKING
 
@@ -664,6 +664,8 @@ def c09_noblock(ctx):
                 key = 'try_sync ~> %s|%s' % (short(fname), BLOCKING[name])
                 if BLOCKING[name] == 'JoinHandle::join' and bounded_join(ctx, fn, s.bb):
                     out.append(ok(R, key, 'bounded: only handles whose thread has finished are joined', loc=s.loc, fn=fname))
+                elif BLOCKING[name] == 'JoinHandle::join' and join_unknown(ctx, fn):
+                    out.append(undecided(R, key, join_unknown(ctx, fn)))
                 else:
                     out.append(bad(R, key, 'a blocking call is reachable from try_sync', loc=s.loc, fn=fname))
     # and the decision itself never leads to the waiting strategies
